@@ -44,7 +44,7 @@ def main():
         if a.startswith("--tag="):
             tag = a.split("=", 1)[1]
     diff = os.path.join(wt, "MUT", "m%s.diff" % idx)
-    demo = "sh MUT/m%s_demo/run.sh" % idx
+    demo = "bash MUT/m%s_demo/run.sh" % idx
     meta = {"property": pid, "source": "independent sub-agent given only the property text and a scratch worktree"}
     try:
         meta["agent_meta"] = json.load(open(os.path.join(wt, "MUT", "m%s.json" % idx)))
